@@ -1,4 +1,4 @@
-"""Translator: grid/utils.py (harmonics routines) -> Gen/Harmonics.lean.
+"""Translator: grid/utils.py (harmonics routines) -> Gen/Harmonics.lean, Gen/HarmonicsScipy.lean.
 
 AST based; the NumPy code is element-wise in the points, the generated definitions are for one point.
 
@@ -18,6 +18,12 @@ What is carried:
   the angles and the masked repair `phi[r == 0.0] = 0.0`.
 * `convert_derivative_from_spherical_to_cartesian`: the nine matrix entries, the two thresholds with their
   column assignments in source order, the final `jacobian.dot`.
+* `generate_real_spherical_harmonics_scipy` (round 3, -> Gen/HarmonicsScipy.lean, class `ScipyTranslator`): every statement —
+  the three guards, `outside`, the two `np.where` under `if np.any(outside)` (the reduction over the points axis becomes a
+  Boolean parameter), the call of SciPy's `sph_harm_y_all` as a named primitive (contract in Model/HarmonicsSciPy.lean),
+  `np.ones` / the store `phase_cor_pos[1:] = sqrt(2) * (-1.0) ** arange(…)` under `if l_max > 0`, `np.empty` (content = a
+  parameter), the loop with `row_start`, `row_end` and its three stores (two of them strided slices), and next to each
+  definition a `…_fits` definition collecting the shape requirements NumPy would raise on (broadcasts, indices, slice stores).
 
 Anything else in those functions (another statement kind, an unknown call, a view that could alias a work
 array, a non-literal column index, …) raises `Untranslatable`: the check treats that as a broken proof
@@ -1179,6 +1185,450 @@ def derivHarmonics {up} (phi_rows : Nat → Int → K) (l_max : Nat) (theta phi 
 
 
 # ------------------------------------------------------------------------------------------------
+# generate_real_spherical_harmonics_scipy
+# ------------------------------------------------------------------------------------------------
+class ScipyTranslator:
+    """Statement-by-statement translation of `generate_real_spherical_harmonics_scipy` (one point of the points axis).
+
+    Value types: 'K' real scalar at the point, 'B' boolean at the point, 'N'/'L'/'Z' integers (as in `Ex`),
+    'LK' list of reals along a non-point axis, 'LN' list of naturals, 'LKmap' an element-wise expression over such a list
+    (base list, element text in the variable `i_`), 'TC' table of complex numbers, 'LC' list of complex, 'C' complex.
+    Every statement with a shape requirement (broadcast, slice store, index) also contributes a conjunct to the `…_fits`
+    definitions (NumPy raises where it is false)."""
+
+    CZ = "(((0 : Nat) : K), ((0 : Nat) : K))"
+    LEAN_TY = {"K": "K", "B": "Bool", "N": "Nat", "LK": "List K", "LC": "List (K × K)", "TC": "List (List (K × K))"}
+    FN = "generate_real_spherical_harmonics_scipy"
+
+    def __init__(self, fn, tree):
+        self.fn = fn
+        self.tree = tree
+        self.env = {}      # name -> (type, lean text)
+        self.kenv = {}     # the scalar part of it, for `Ex`
+        self.ex = Ex(self.kenv)
+        self.params = []   # extra parameters of the main definition: (lean name, lean type)
+        self.dtypes = []
+        self.defs = []
+        self.guards = []
+        self.reqs = []
+        self.pts_axis = None
+        self.state = {}    # state array -> junk parameter
+
+    # -- environment ---------------------------------------------------------------------------
+    def bind(self, name, ty, lean=None):
+        lean = lean or name
+        self.env[name] = (ty, lean)
+        if ty == "K":
+            self.kenv[name] = dict(kind="K", lean=lean, dtype="float64")
+        elif ty == "N":
+            self.kenv[name] = dict(kind="nat", lean=lean)
+        else:
+            self.kenv.pop(name, None)
+
+    def need(self, cond, node, why=""):
+        if not cond:
+            raise Untranslatable(f"{self.FN}: {why + ': ' if why else ''}{_src(node)[:110]}")
+
+    def asK(self, t):
+        self.need(t[0] in ("K", "N", "L", "Z"), ast.Constant(value=t[1]), "used as a real scalar")
+        return self.ex.asK(t)
+
+    def asNat(self, t):
+        return self.ex.asNat(t)
+
+    def lst(self, t):
+        """Text of a list-valued expression."""
+        if t[0] == "LKmap":
+            base, elem = t[1]
+            return f"(({base}).map (fun (i_ : Nat) => {elem}))"
+        if t[0] in ("LK", "LC", "LN"):
+            return t[1]
+        raise Untranslatable(f"{self.FN}: {t[1]} used as an array")
+
+    # -- expressions ----------------------------------------------------------------------------
+    def tr(self, e):
+        if isinstance(e, ast.Name) and e.id in self.env and self.env[e.id][0] not in ("K", "N"):
+            return self.env[e.id]
+        if isinstance(e, ast.Compare):
+            return ("B", f"decide {self.ex.cond(e)}")
+        if isinstance(e, ast.BinOp) and isinstance(e.op, (ast.BitOr, ast.BitAnd)):
+            a, b = self.tr(e.left), self.tr(e.right)
+            self.need(a[0] == "B" and b[0] == "B", e, "| / & of non-boolean operands")
+            return ("B", f"({a[1]} {'||' if isinstance(e.op, ast.BitOr) else '&&'} {b[1]})")
+        if isinstance(e, ast.Attribute) and e.attr in ("real", "imag") and not _np_attr(e, ("real", "imag")):
+            a = self.tr(e.value)
+            part = ".1" if e.attr == "real" else ".2"
+            proj = "Prod.fst" if e.attr == "real" else "Prod.snd"
+            if a[0] == "C":
+                return ("K", f"{a[1]}{part}")
+            if a[0] == "LC":
+                return ("LK", f"(({a[1]}).map {proj})")
+            self.need(False, e, "real/imag of a non-complex value")
+        if isinstance(e, ast.Call):
+            t = self.call(e)
+            if t is not None:
+                return t
+        if isinstance(e, ast.BinOp) and isinstance(e.op, (ast.Pow, ast.Mult)):
+            a, b = self.tr(e.left), self.tr(e.right)
+            scal = ("K", "N", "L", "Z")
+            if isinstance(e.op, ast.Pow) and a[0] in scal and b[0] == "LN":
+                return ("LKmap", (b[1], f"(npow {self.asK(a)} i_)"))   # float ** integer array, element-wise
+            if isinstance(e.op, ast.Mult) and a[0] in scal and b[0] == "LKmap":
+                return ("LKmap", (b[1][0], f"({self.asK(a)} * {b[1][1]})"))
+            if isinstance(e.op, ast.Mult) and a[0] == "LC" and b[0] == "LK":
+                self.reqs.append((f"({a[1]}).length = ({b[1]}).length", f"broadcast of {_src(e)}"))
+                return ("LC", f"(List.zipWith cmulR {a[1]} {b[1]})")
+            if a[0] not in scal or b[0] not in scal:
+                self.need(False, e, "array arithmetic outside the handled shapes")
+        if isinstance(e, ast.Subscript):
+            t = self.subscript(e)
+            if t is not None:
+                return t
+        return self.ex.tr(e)
+
+    def slice_bounds(self, sl, length):
+        """`a:b:c` with non-negative literal/natural parts -> (start, stop, step) as Lean naturals."""
+        self.need(isinstance(sl, ast.Slice), sl, "not a slice")
+        start = self.asNat(self.ex.tr(sl.lower)) if sl.lower is not None else "0"
+        stop = self.asNat(self.ex.tr(sl.upper)) if sl.upper is not None else length
+        step = self.asNat(self.ex.tr(sl.step)) if sl.step is not None else "1"
+        if sl.step is not None:
+            self.need(isinstance(sl.step, ast.Constant) and isinstance(sl.step.value, int) and sl.step.value >= 1, sl, "slice step")
+        return start, stop, step
+
+    def subscript(self, e):
+        if not (isinstance(e.value, ast.Name) and e.value.id in self.env):
+            return None
+        ty, lean = self.env[e.value.id]
+        idx = list(e.slice.elts) if isinstance(e.slice, ast.Tuple) else [e.slice]
+        if ty == "TC":
+            # table[l, :n]  -> the first n entries of row l
+            self.need(len(idx) == 2 and isinstance(idx[1], ast.Slice) and idx[1].lower is None and idx[1].step is None
+                      and idx[1].upper is not None, e, "subscript of the table")
+            row = self.asNat(self.ex.tr(idx[0]))
+            n = self.asNat(self.ex.tr(idx[1].upper))
+            self.reqs.append((f"{row} < ({lean}).length", f"row index of {_src(e)}"))
+            return ("LC", f"((({lean}).getD {row} []).take {n})")
+        if ty == "LK":
+            # v[:n, None] (a column, broadcast along the points axis) / v[:n]
+            if len(idx) == 2:
+                self.need(isinstance(idx[1], ast.Constant) and idx[1].value is None, e, "second index")
+                idx = idx[:1]
+            self.need(len(idx) == 1 and isinstance(idx[0], ast.Slice) and idx[0].lower is None and idx[0].step is None
+                      and idx[0].upper is not None, e, "subscript of a real array")
+            return ("LK", f"(({lean}).take {self.asNat(self.ex.tr(idx[0].upper))})")
+        if ty == "LC":
+            self.need(len(idx) == 1, e, "subscript of a complex array")
+            i = idx[0]
+            if isinstance(i, ast.Slice):
+                self.need(i.upper is None and i.step is None and i.lower is not None, e, "slice of a complex array")
+                return ("LC", f"(({lean}).drop {self.asNat(self.ex.tr(i.lower))})")
+            k = self.asNat(self.ex.tr(i))
+            self.reqs.append((f"{k} < ({lean}).length", f"index of {_src(e)}"))
+            return ("C", f"(({lean}).getD {k} {self.CZ})")
+        return None
+
+    def call(self, e):
+        f = e.func
+        if isinstance(f, ast.Name) and f.id == "sph_harm_y_all":
+            imported = any(isinstance(n, ast.ImportFrom) and n.module == "scipy.special" and any(a.name == "sph_harm_y_all" and a.asname is None for a in n.names)
+                           for n in self.tree.body)
+            self.need(imported and len(e.args) == 4 and not e.keywords, e, "sph_harm_y_all is not scipy.special's / arguments")
+            a = [self.tr(x) for x in e.args]
+            return ("TC", f"(sph_harm_y_all {self.asNat(a[0])} {self.asNat(a[1])} {self.asK(a[2])} {self.asK(a[3])})")
+        name = _np_attr(f, ("where", "ones", "arange"))
+        if name == "where":
+            self.need(len(e.args) == 3 and not e.keywords, e)
+            c, x, y = (self.tr(a) for a in e.args)
+            self.need(c[0] == "B", e, "condition of np.where")
+            return ("K", f"(if {c[1]} then {self.asK(x)} else {self.asK(y)})")
+        if name == "ones":
+            self.need(len(e.args) == 1 and all(kw.arg == "dtype" for kw in e.keywords), e)
+            self.last_dtype = _dtype_kw(e) or "float64"
+            return ("LK", f"(onesK {self.asNat(self.ex.tr(e.args[0]))})")
+        if name == "arange":
+            self.need(len(e.args) == 2 and not e.keywords, e)
+            a, b = (self.asNat(self.ex.tr(x)) for x in e.args)
+            return ("LN", f"List.range' {a} ({b} - {a})")
+        return None
+
+    def cond(self, test):
+        """Condition of an `if` statement."""
+        if isinstance(test, ast.Call) and _np_attr(test.func, ("any",)) and len(test.args) == 1 and not test.keywords \
+                and isinstance(test.args[0], ast.Name) and self.env.get(test.args[0].id, ("",))[0] == "B":
+            # a reduction over the points axis: a parameter of the one-point definition
+            p = f"any_{test.args[0].id}"
+            if (p, "Bool") not in self.params:
+                self.params.append((p, "Bool"))
+                self.any_of = getattr(self, "any_of", {})
+                self.any_of[p] = self.env[test.args[0].id][1]
+            return p
+        return self.ex.cond(test)
+
+    # -- statements ------------------------------------------------------------------------------
+    def drain(self, pad, flines):
+        for req, why in self.reqs:
+            flines.append(f"{pad}-- {why}")
+            flines.append(f"{pad}let fits_ : Bool := fits_ && decide ({req})")
+        self.reqs = []
+
+    def targets(self, stmts):
+        out = []
+        for s in stmts:
+            self.need(isinstance(s, ast.Assign) and len(s.targets) == 1, s, "statement inside a conditional")
+            t = s.targets[0]
+            n = t.id if isinstance(t, ast.Name) else t.value.id if isinstance(t, ast.Subscript) and isinstance(t.value, ast.Name) else None
+            self.need(n is not None and n in self.env, s, "assignment target")
+            if n not in out:
+                out.append(n)
+        return out
+
+    def block(self, stmts, ind):
+        """-> (lines of the value definition, lines of the `fits` definition)"""
+        v, f = [], []
+        pad = " " * ind
+        for s in stmts:
+            src1 = _src(s).split("\n")[0]
+            if isinstance(s, ast.Assign) and len(s.targets) == 1 and isinstance(s.targets[0], ast.Name):
+                name = s.targets[0].id
+                val = s.value
+                if _src(val) in ("len(theta)", "len(phi)"):
+                    self.pts_axis = name
+                    v.append(f"{pad}-- {src1}   (length of the points axis)")
+                    continue
+                if isinstance(val, ast.Call) and _np_attr(val.func, ("asarray",)) and len(val.args) == 1 and not val.keywords \
+                        and _src(val.args[0]) == name and self.env.get(name, ("",))[0] == "K":
+                    v.append(f"{pad}-- {src1}")
+                    continue
+                if isinstance(val, ast.Call) and _np_attr(val.func, ("empty",)):
+                    self.need(len(val.args) == 1 and isinstance(val.args[0], ast.Tuple) and len(val.args[0].elts) == 2
+                              and all(kw.arg == "dtype" for kw in val.keywords), s, "np.empty")
+                    rows, pts = val.args[0].elts
+                    self.need(self.pts_axis is not None and _src(pts) == self.pts_axis, s, "last axis is not the points axis")
+                    self.need(name not in self.env, s, "rebinding")
+                    self.dtypes.append((name, _dtype_kw(val) or "float64"))
+                    junk = f"{name}0"
+                    self.params.insert(0, (junk, "K"))
+                    self.state[name] = junk
+                    line = f"{pad}let {name} : List K := emptyK {self.asNat(self.ex.tr(rows))} {junk}"
+                    self.bind(name, "LK")
+                    v += [f"{pad}-- {src1}", line]
+                    f += [f"{pad}-- {src1}", line]
+                    continue
+                self.last_dtype = None
+                t = self.tr(val)
+                if t[0] in ("L", "Z"):
+                    t = ("N", self.asNat(t))
+                if t[0] == "LKmap":
+                    t = ("LK", self.lst(t))
+                self.need(t[0] in self.LEAN_TY, s, f"value of type {t[0]}")
+                if name in self.env:
+                    self.need(self.env[name][0] == t[0], s, "rebinding with another type")
+                if self.last_dtype:
+                    self.dtypes.append((name, self.last_dtype))
+                line = f"{pad}let {name} : {self.LEAN_TY[t[0]]} := {t[1]}"
+                v += [f"{pad}-- {src1}", line]
+                f.append(f"{pad}-- {src1}")
+                self.drain(pad, f)
+                f.append(line)
+                self.bind(name, t[0])
+                continue
+            if isinstance(s, ast.Assign) and len(s.targets) == 1 and isinstance(s.targets[0], ast.Subscript) \
+                    and isinstance(s.targets[0].value, ast.Name):
+                tgt = s.targets[0]
+                name = tgt.value.id
+                self.need(self.env.get(name, ("",))[0] == "LK", s, "store into something that is not a real array")
+                val = self.tr(s.value)
+                idx = list(tgt.slice.elts) if isinstance(tgt.slice, ast.Tuple) else [tgt.slice]
+                self.need(len(idx) == 1, s, "store index")
+                if isinstance(idx[0], ast.Slice):
+                    self.need(val[0] in ("LK", "LKmap"), s, "slice store of a non-array")
+                    vt = self.lst(val)
+                    a, b, c = self.slice_bounds(idx[0], f"{name}.length")
+                    self.reqs.append((f"sliceCount {name}.length {a} {b} {c} = ({vt}).length", f"shape of the store {src1}"))
+                    line = f"{pad}let {name} : List K := setSlice {name} {a} {b} {c} {vt}"
+                else:
+                    i = self.asNat(self.ex.tr(idx[0]))
+                    self.reqs.append((f"{i} < {name}.length", f"index of the store {src1}"))
+                    line = f"{pad}let {name} : List K := {name}.set {i} {self.asK(val)}"
+                v += [f"{pad}-- {src1}", line]
+                f.append(f"{pad}-- {src1}")
+                self.drain(pad, f)
+                f.append(line)
+                continue
+            if isinstance(s, ast.If):
+                self.need(not s.orelse, s, "else branch")
+                c = self.cond(s.test)
+                tg = self.targets(s.body)
+                tys = [self.LEAN_TY[self.env[n][0]] for n in tg]
+                saved = dict(self.env), dict(self.kenv)
+                bv, bf = self.block(s.body, ind + 4)
+                self.need(all(self.env[n][0] == saved[0][n][0] for n in tg), s, "a branch changes the type of a variable")
+                self.env, self.kenv = saved
+                self.ex.env = self.kenv
+                tup = tg[0] if len(tg) == 1 else "(" + ", ".join(tg) + ")"
+                ty = tys[0] if len(tg) == 1 else " × ".join(tys)
+                var = tg[0] if len(tg) == 1 else "upd_"
+                head = [f"{pad}-- {src1}", f"{pad}let {var} : {ty} :=", f"{pad}  if {c} then"]
+                tail = [f"{pad}    {tup}", f"{pad}  else", f"{pad}    {tup}"]
+                proj = []
+                if len(tg) > 1:
+                    # right-nested pairs: component k is .2 (k times) then .1, the last one .2 (k-1 times) then .2
+                    proj = []
+                    for k, (n, t) in enumerate(zip(tg, tys)):
+                        path = ".2" * k + (".1" if k < len(tg) - 1 else "")
+                        proj.append(f"{pad}let {n} : {t} := upd_{path}")
+                v += head + bv + tail + proj
+                f += [f"{pad}-- {src1}", f"{pad}let fits_ : Bool :=", f"{pad}  if {c} then"] + bf + [f"{pad}    fits_", f"{pad}  else", f"{pad}    fits_"]
+                f += head[1:] + bv + tail + proj
+                continue
+            if isinstance(s, ast.For):
+                name, rng, args, st = self.loop(s)
+                v += [f"{pad}-- {src1}", f"{pad}let {st} : List K := ({rng}).foldl ({' '.join([name] + args)}) {st}"]
+                f += [f"{pad}-- {src1}",
+                      f"{pad}let fits_ : Bool := fits_ && ({rng}).all (fun ({s.target.id} : Nat) => {' '.join([name + '_fits'] + args + [st, s.target.id])})",
+                      f"{pad}let {st} : List K := ({rng}).foldl ({' '.join([name] + args)}) {st}"]
+                continue
+            self.need(False, s, "statement kind")
+        return v, f
+
+    def loop(self, s):
+        self.need(not s.orelse and isinstance(s.target, ast.Name) and s.target.id not in self.env, s, "loop header")
+        it = s.iter
+        self.need(isinstance(it, ast.Call) and isinstance(it.func, ast.Name) and it.func.id == "range" and 1 <= len(it.args) <= 2
+                  and not it.keywords, s, "loop range")
+        a = self.asNat(self.ex.tr(it.args[0])) if len(it.args) == 2 else "0"
+        b = self.asNat(self.ex.tr(it.args[-1]))
+        rng = f"List.range' {a} ({b} - {a})"
+        var = s.target.id
+        stored = [n.targets[0].value.id for n in ast.walk(s) if isinstance(n, ast.Assign) and isinstance(n.targets[0], ast.Subscript)
+                  and isinstance(n.targets[0].value, ast.Name)]
+        states = list(dict.fromkeys(stored))
+        self.need(len(states) == 1 and states[0] in self.state, s, "the loop must store into exactly one array created before it")
+        st = states[0]
+        local = [n.targets[0].id for n in ast.walk(s) if isinstance(n, ast.Assign) and isinstance(n.targets[0], ast.Name)]
+        self.need(not any(n in self.env for n in local), s, "the loop rebinds a variable of the enclosing scope")
+        used = [n for n in dict.fromkeys(x for b in s.body for x in _names_loaded(b)) if n in self.env and n != st]
+        params = [(n, self.LEAN_TY[self.env[n][0]]) for n in self.env if n in used]
+        saved = dict(self.env), dict(self.kenv)
+        self.bind(var, "N")
+        bv, bf = self.block(s.body, 2)
+        self.env, self.kenv = saved
+        self.ex.env = self.kenv
+        self.loop_locals = getattr(self, "loop_locals", []) + local + [var]
+        name = f"step_{var}"
+        sig = " ".join(f"({n} : {t})" for n, t in params)
+        hdr = f"`for {var} in {_src(s.iter)}:` of `{self.FN}`"
+        self.defs.append("\n".join([f"/-- Body of {hdr}. -/",
+                                    f"def {name} {sig} ({st} : List K) ({var} : Nat) : List K :="] + bv + [f"  {st}", ""]))
+        self.defs.append("\n".join([f"/-- Shape requirements of the statements in the body of {hdr} (NumPy raises where one of them is false). -/",
+                                    f"def {name}_fits {sig} ({st} : List K) ({var} : Nat) : Bool :=", "  let fits_ : Bool := true"] + bf + ["  fits_", ""]))
+        return name, rng, [n for n, _ in params], st
+
+    def guard(self, s, k):
+        """`if <cond>: raise ValueError(…)` before any computation -> a Boolean definition."""
+        self.need(len(s.body) == 1 and isinstance(s.body[0], ast.Raise) and not s.orelse and isinstance(s.body[0].exc, ast.Call)
+                  and _src(s.body[0].exc.func) == "ValueError", s, "guard")
+        params = []
+
+        def operand(e):
+            if isinstance(e, ast.Name) and e.id == "l_max":
+                p = ("l_max", "Int")
+                txt, ty = "l_max", "Z"
+            elif isinstance(e, ast.Attribute) and isinstance(e.value, ast.Name) and e.value.id in ("theta", "phi") and e.attr in ("shape", "ndim"):
+                p = (f"{e.value.id}_{e.attr}", "List Nat" if e.attr == "shape" else "Nat")
+                txt, ty = p[0], "S" if e.attr == "shape" else "N"
+            elif isinstance(e, ast.Constant) and isinstance(e.value, int) and not isinstance(e.value, bool) and e.value >= 0:
+                return str(e.value), "L"
+            else:
+                self.need(False, e, "operand of a guard")
+            if p not in params:
+                params.append(p)
+            return txt, ty
+
+        def cond(e):
+            if isinstance(e, ast.BoolOp):
+                return "(" + (" ∧ " if isinstance(e.op, ast.And) else " ∨ ").join(cond(x) for x in e.values) + ")"
+            self.need(isinstance(e, ast.Compare) and len(e.ops) == 1, e, "guard condition")
+            (a, ta), (b, tb) = operand(e.left), operand(e.comparators[0])
+            sym = {ast.Eq: "=", ast.NotEq: "≠", ast.Lt: "<", ast.LtE: "≤", ast.Gt: ">", ast.GtE: "≥"}.get(type(e.ops[0]))
+            self.need(sym is not None, e, "comparison of a guard")
+            if "S" in (ta, tb):
+                self.need(ta == tb == "S" and sym in ("=", "≠"), e, "comparison of shapes")
+            if "Z" in (ta, tb):
+                a, b = (f"({x} : Int)" if t == "L" else x for x, t in ((a, ta), (b, tb)))
+            return f"({a} {sym} {b})"
+
+        c = cond(s.test)
+        sig = " ".join(f"({n} : {t})" for n, t in params)
+        self.guards.append(f"/-- `{_src(s.test)}` → `raise ValueError(…)`. -/\ndef rejects_{k} {sig} : Bool := decide {c}\n")
+
+    def run(self):
+        fn = self.fn
+        self.need([a.arg for a in fn.args.args] == ["l_max", "theta", "phi"] and not fn.args.defaults and not fn.args.vararg
+                  and not fn.args.kwarg, fn, "signature")
+        for n in ast.walk(fn):
+            if isinstance(n, (ast.AugAssign, ast.AnnAssign, ast.Delete, ast.Global, ast.Nonlocal, ast.While, ast.Try, ast.With, ast.Lambda,
+                              ast.NamedExpr, ast.Starred, ast.ListComp, ast.GeneratorExp, ast.Yield, ast.FunctionDef)) and n is not fn:
+                self.need(False, n, f"statement/expression kind {type(n).__name__}")
+        body = _body(fn)
+        k = 0
+        rest = []
+        for s in body:
+            if isinstance(s, ast.If) and len(s.body) == 1 and isinstance(s.body[0], ast.Raise):
+                self.need(all(isinstance(r, ast.Pass) or (isinstance(r, ast.Assign) and _np_attr(getattr(r.value, "func", None), ("asarray",)))
+                              for r in rest), s, "guard after the computation started")
+                self.guard(s, k)
+                k += 1
+                rest.append(ast.Pass())
+            else:
+                rest.append(s)
+        rest = [s for s in rest if not isinstance(s, ast.Pass)]
+        self.need(isinstance(rest[-1], ast.Return) and isinstance(rest[-1].value, ast.Name), fn, "the routine does not end with `return <array>`")
+        self.bind("l_max", "N")
+        self.bind("theta", "K")
+        self.bind("phi", "K")
+        v, f = self.block(rest[:-1], 2)
+        ret = rest[-1].value.id
+        self.need(ret in self.state, rest[-1], "return value")
+        sig = " ".join(f"({n} : {t})" for n, t in self.params)
+        out = [f"/-- Arrays of `{self.FN}` whose storage type is recorded. -/", "inductive Var where"]
+        out += [f"  | {n}" for n, _ in self.dtypes] + ["  deriving DecidableEq, Repr", ""]
+        out += ["/-- The `dtype` each of them is created with, as written in the source. -/", "def dtype : Var → DType"]
+        out += [f"  | .{n} => .{dt}" for n, dt in self.dtypes] + [""]
+        out += self.guards
+        out += ["section generic",
+                "variable {K : Type} [Add K] [Sub K] [Mul K] [Div K] [Neg K] [NatCast K] [Elem K] [LT K] [DecidableLT K]", ""]
+        out += self.defs
+        anys = "; ".join(f"`{p}` stands for `np.any` of `{t}` over the whole points axis (a reduction: the caller's fact, `True` whenever it is "
+                         f"`True` at this point)" for p, t in getattr(self, "any_of", {}).items())
+        junk = "; ".join(f"`{j}` is the unspecified content of `np.empty` (`{n}`)" for n, j in self.state.items())
+        out += [f"/-- `{self.FN}(l_max, theta, phi)` at one point of the points axis (after the guards). {junk}; {anys}. -/",
+                f"def ylm_scipy {sig} (l_max : Nat) (theta phi : K) : List K :="] + v + [f"  -- return {ret}", f"  {ret}", ""]
+        out += [f"/-- Shape requirements of the statements of `{self.FN}` (NumPy raises where one of them is false); inside the loop they are "
+                f"evaluated with the array as it is before the loop (stores do not change lengths). -/",
+                f"def ylm_scipy_fits {sig} (l_max : Nat) (theta phi : K) : Bool :=", "  let fits_ : Bool := true"] + f + ["  fits_", ""]
+        out += ["end generic", ""]
+        return "\n".join(out)
+
+
+def render_scipy() -> str:
+    tree = ast.parse((SRC / "utils.py").read_text())
+    fns = {n.name: n for n in tree.body if isinstance(n, ast.FunctionDef)}
+    if ScipyTranslator.FN not in fns:
+        raise Untranslatable(f"utils.{ScipyTranslator.FN} not found")
+    body = ScipyTranslator(fns[ScipyTranslator.FN], tree).run()
+    return "\n".join([
+        HEADER.format(name="harmonics", source=f"src/grid/utils.py ({ScipyTranslator.FN})"),
+        "import GridVerif.Model.Elem\nimport GridVerif.Model.HarmonicsGenBase\nimport GridVerif.Model.HarmonicsSciPy\n\n"
+        "set_option linter.unusedVariables false\n",
+        "namespace GridVerif.Gen.HarmonicsScipy\nopen GridVerif.GenBase GridVerif.SciPyBase\n",
+        body,
+        "end GridVerif.Gen.HarmonicsScipy\n",
+    ])
+
+
+# ------------------------------------------------------------------------------------------------
 def render() -> str:
     tree = ast.parse((SRC / "utils.py").read_text())
     fns = {n.name: n for n in tree.body if isinstance(n, ast.FunctionDef)}
@@ -1209,7 +1659,10 @@ def render() -> str:
 
 
 def generate():
-    return write_if_changed("Harmonics.lean", render())
+    t1, t2 = render(), render_scipy()   # both before anything is written: a routine that cannot be carried leaves both files as they are
+    c1, d1 = write_if_changed("Harmonics.lean", t1)
+    c2, d2 = write_if_changed("HarmonicsScipy.lean", t2)
+    return c1 or c2, d1 + d2
 
 
 if __name__ == "__main__":
